@@ -64,6 +64,9 @@ impl<S: Storage<Item = T>, T> ConcurrentMutRingBuf<S> {
     /// - [`AsyncConsIter`].
     #[cfg(all(feature = "alloc", any(feature = "async", doc)))]
     pub fn split_mut_async<'buf>(self) -> (AsyncProdIter<'buf, ConcurrentMutRingBuf<S>>, AsyncWorkIter<'buf, ConcurrentMutRingBuf<S>>, AsyncConsIter<'buf, ConcurrentMutRingBuf<S>, true>) {
+        self.set_prod_index(0);
+        self.set_work_index(0);
+        self.set_cons_index(0);
         self.set_prod_alive(true);
         self.set_work_alive(true);
         self.set_cons_alive(true);
@@ -120,6 +123,9 @@ impl<S: Storage<Item = T>, T> ConcurrentMutRingBuf<S> {
     /// - [`AsyncConsIter`].
     #[cfg(all(feature = "alloc", any(feature = "async", doc)))]
     pub fn split_async<'buf>(self) -> (AsyncProdIter<'buf, ConcurrentMutRingBuf<S>>, AsyncConsIter<'buf, ConcurrentMutRingBuf<S>, false>) {
+        self.set_prod_index(0);
+        self.set_work_index(0);
+        self.set_cons_index(0);
         self.set_prod_alive(true);
         self.set_cons_alive(true);
 
